@@ -19,9 +19,13 @@ from .. import common, gen, pool
 from ..worker import case_seed
 
 
+GROUPS = {}   # index in pool -> sibling group id (filled by make_pool)
+
+
 def make_pool(seed, n):
     """deterministic list of texts; includes texts that fail to parse and texts with unschedulable tasks"""
     out = []
+    GROUPS.clear()
     kinds = [dict(subslot=True, tz=True), dict(core=True, subslot=False), dict(subslot=True, alap=True), dict(subslot=False, limits=True, tasklimits=True, overrun=True, weeks=(1, 2)),
              dict(subslot=True, alts=True, teams=True), dict(subslot=True, tz=True, odd_zones=True, aligned=False)]
     i = 0
@@ -32,6 +36,13 @@ def make_pool(seed, n):
         m = gen.gen(rnd, **kinds[i % len(kinds)])
         if not m["acyclic"] and i % 5:
             continue
+        if i % 3 == 0 and m["resources"]:
+            # make sure sibling groups exercise zone-dependent calendars
+            r0 = m["resources"][0]
+            if not r0.get("tz"):
+                r0["tz"] = rnd.choice(["Asia/Tokyo", "America/New_York", "Europe/Berlin"])
+            if "shift" not in r0 and "inline" not in r0:
+                r0["inline"] = [(0, 4, [(8 * 60, 12 * 60), (13 * 60, 17 * 60)])]
         scen = None
         if i % 4 == 0:
             scen = ['scenario plan "p" {', '  scenario delayed "d"', "}"]
@@ -50,7 +61,41 @@ def make_pool(seed, n):
             text = text.replace("allocate r0", "allocate ghost", 1)  # unknown resource
         elif k == 9:
             text = text[: len(text) // 2]                              # truncated
+        GROUPS[len(out)] = i
         out.append(text)
+        # siblings: same ids, same start date, same zones - but one aspect differs. Caches or memo tables keyed by a
+        # partial identity (slot index, start date, resource/task/shift id, zone) collide between such texts.
+        if i % 3 == 0 and k not in (3, 7, 9) and len(out) < n:
+            import copy
+            m2 = copy.deepcopy(m)
+            kind = (i // 3) % 4
+            if kind == 0:
+                m2["res"] = {60: 30, 30: 15, 15: 60, 10: 30, 5: 15}.get(m["res"], 30)
+            elif kind == 1:
+                for sid in list(m2["shifts"]):
+                    m2["shifts"][sid] = [(d0, d1, [(max(0, s0 - 60), e0) if e0 > s0 else (s0, e0) for s0, e0 in ivs]) for d0, d1, ivs in m2["shifts"][sid]]
+                for r in m2["resources"]:
+                    if "inline" in r:
+                        r["inline"] = [(d0, d1, [(s0, min(1439, e0 + 60)) if e0 > s0 else (s0, e0) for s0, e0 in ivs]) for d0, d1, ivs in r["inline"]]
+                    r["eff"] = {1.0: 0.5, 0.5: 1.0}.get(r["eff"], r["eff"])
+            elif kind == 2:
+                for t in m2["tasks"]:
+                    if "effort_min" in t:
+                        t["effort_min"] += m2["res"]
+                for r in m2["resources"]:
+                    if r.get("limits"):
+                        r["limits"] = {k2: v + 1 for k2, v in r["limits"].items()}
+                    elif r.get("tz"):
+                        r["tz"] = "Asia/Tokyo" if r["tz"] != "Asia/Tokyo" else "Europe/Berlin"
+            else:
+                m2["alap"] = not m2["alap"]
+                for t in m2["tasks"]:
+                    t.pop("start", None)
+                    t.pop("end", None)
+                    for d in t.get("deps", []):
+                        d.pop("onstart", None)
+            GROUPS[len(out)] = i
+            out.append(gen.render(m2, scenarios=scen, trailer=trailer))
     fx = sorted(glob.glob(os.path.join(common.REPO, "tests", "data", "*.tjp")))
     for f in fx[: max(2, n // 8)]:
         try:
@@ -145,12 +190,20 @@ def worker(job, acc):
     rnd = random.Random(case_seed(job["seed"], 99, job["params"]["hist"]))
     n_ops = rnd.randint(2, job["params"]["maxlen"])
     log = []
+    touched = set()
     last = None   # (text index, project)
     for step in range(n_ops):
         op = rnd.choice(["parse", "parse", "parse", "parse-noschedule-then-schedule", "reschedule", "reports-twice", "parse-same-again"])
         before = state_snapshot()
         if op in ("parse", "parse-noschedule-then-schedule", "parse-same-again") or last is None:
             ti = rnd.randrange(len(texts)) if not (op == "parse-same-again" and last) else last[0]
+            if op != "parse-same-again" and touched and rnd.random() < 0.5:
+                # prefer a sibling (same ids / start / zones, one aspect different) of a text this interpreter has seen
+                g = rnd.choice(sorted(touched))
+                sibs = [x for x, gg in GROUPS.items() if gg == g]
+                if sibs:
+                    ti = rnd.choice(sibs)
+            touched.add(GROUPS.get(ti, -ti - 1))
             if op == "parse-noschedule-then-schedule":
                 p, exc = do_parse(texts[ti], schedule=False)
                 if p is not None:
